@@ -130,14 +130,16 @@ Theorem matched_opens_ok fuel W name d lg p i r c :
   /\ x_has_unknown i = false
   /\ x_is_obj i = true
   /\ (exists pv, alookup p (w_provs W) = Some pv)
-  /\ (name <> "" -> r = name)
+  /\ (name <> "" -> name <> "<yaml>" -> r = name)
+  /\ (anon_root r = false \/ r = c)
   /\ (c = name \/ In (OLoad c) lg).
 Proof.
   intros Hm Hin. rewrite (log_matches_map _ _ Hm) in *. apply in_map_iff in Hin.
   destruct Hin as ([n|n|id p' i' r' c'|e' c'] & Hf & Hin); cbn in Hf; try discriminate.
   inversion Hf; subst p' i' r' c'.
-  destruct (run_open_inputs_ok fuel W name d id p i r c Hin) as (Hc & Hcid & Hr & pv & iv & Hp & _ & _ & Hu & _ & Ho).
+  destruct (run_open_inputs_ok fuel W name d id p i r c Hin) as (Hc & Hcid & Hr & Han & pv & iv & Hp & _ & _ & Hu & _ & Ho).
   split; [exact Hc|]. split; [exact Hu|]. split; [exact Ho|]. split; [exists pv; exact Hp|]. split; [exact Hr|].
+  split; [exact Han|].
   rewrite run_log in Hin |- *. rewrite <- in_rev in Hin.
   destruct (event_env_own_or_loaded W fuel "" name d _ c Hin eq_refl) as [->|Hl]; [now left|right].
   apply in_map_iff. exists (EvLoad c). split; [reflexivity|]. rewrite <- in_rev. exact Hl.
@@ -186,4 +188,24 @@ Proof.
     destruct Hin as [->|Hin]; cbn.
     + rewrite Hok. now left.
     + destruct e; try (apply IH, Hin). destruct (ok_load W name0); [right|]; apply IH, Hin.
+Qed.
+
+(* ---- the same for ALL loads and EVERY fault plan: a failed load is remembered, nothing is loaded twice ---- *)
+Lemma oloads_forget l : oloads (map forget l) = all_loads l.
+Proof.
+  unfold oloads. induction l as [|e l IH]; [reflexivity|].
+  destruct e; cbn [map forget concat app all_loads]; try exact IH. now rewrite IH.
+Qed.
+
+Theorem matched_loads_once_all fuel W name d lg n :
+  log_matches (ob_log (run fuel W name d)) lg = true ->
+  In (OLoad n) lg ->
+  C05.count_str n (oloads lg) = 1%nat.
+Proof.
+  intros Hm Hin. rewrite (log_matches_map _ _ Hm) in *. unfold C05.count_str. rewrite oloads_forget.
+  apply NoDup_count_one; [apply run_load_at_most_once|].
+  apply in_map_iff in Hin. destruct Hin as ([m|m|? ? ? ? ?|? ?] & Hfg & Hin); cbn in Hfg; try discriminate.
+  inversion Hfg; subst m. clear Hfg Hm.
+  induction (ob_log (run fuel W name d)) as [|e l IH]; [destruct Hin|].
+  destruct Hin as [->|Hin]; cbn; [now left|]. destruct e; try (apply IH, Hin). right. apply IH, Hin.
 Qed.
